@@ -17,7 +17,10 @@ ARR = ['[]', '[1]', '[1,2,3]', '[[]]', '[[1,2],[3]]', '["a"]', '[nil]', '[nil, n
        '["b", "a", "c", "a"]', '[3, 1, 2, (log -1), 0]', '[[3], [1], [(log -1)], [2]]', 'SORTARR', '[[], []]', '[[1], []]', '[west, 1]', '[[0,0,0], 1]', '["x", [0,0,0], [], 0, "NONE"]',
        '[1, [2]]', '["a", 1]', '[1, "a", true, {}, [], objNull]', '[[1, 2], [3, 4]]', '[["k", 1], ["k", 2]]', '[["k"]]', '[[["k", 1]]]', '[0, 1, 2, 3, 4, 5, 6, 7, 8, 9, 10, 11, 12, 13, 14, 15, 16, 17]',
        '[250, 2147483520]', '[0, 2147483520]', '[2, 1e39]', '[300, 0]', '[299, 5]', '[1, 300]', '["%99999999999", 1]', '["%", 1]', '["%1%", 1]', '["%0", 1]', '["%2147483648", 1]',
-       '["%1 %2 %3 %4", 1, "a"]', '["%-1", 1]', '["%1.5", 1]', '[LONGSTR, 1]']
+       '["%1 %2 %3 %4", 1, "a"]', '["%-1", 1]', '["%1.5", 1]', '[LONGSTR, 1]',
+       '["m", []]', '["m", [1]]', '["m", [1, 2]]', '["m", ["a", "b"]]', '["m", [0, 0, 0]]', '["m", objNull]', '["m", OBJ]', '[[], "m"]', '["m", nil]', '["m", [nil, nil]]',
+       '[[], []]', '[[1], [2], [3]]', '[OBJ, [0, 0, 0]]', '[GRP, "m"]', 'NANARR', 'NANSUB', '[[0, 0], [1, 1]]', '[[0, 0, 0], [1, 1, 1], 2]', '[1, [0, 0, 0]]', '["a", "b"]', '[0, 3]', '[0, 0]',
+       '[3, 0]', '[2, 5]']
 BOOL = ['true', 'false']
 CODE = ['{}', '{1}', '{nil}', '{_x}', '{true}', '{false}', '{_x > 1}', '{1 + "a"}', '{[]}', '{_this}', '{throw 1}', '{_x == _y}', '{"a"}', '{[_x, _y]}']
 OBJ = ['objNull', 'OBJ', 'OBJ2']
@@ -42,6 +45,8 @@ SETUP = {
     'OBJ2': 'OBJ2 = (createGroup west) createUnit ["B_Soldier_F", [1, 1, 0], [], 0, "NONE"];',
     'GRP': 'GRP = createGroup west;',
     'MAPBIG': 'MAPBIG = createHashMap; for "_i" from 1 to 200 do { MAPBIG set [_i, [_i]] };',
+    'NANARR': 'NANARR = []; for "_i" from 1 to 24 do { NANARR pushBack (log -1) };',
+    'NANSUB': 'NANSUB = []; for "_i" from 1 to 24 do { NANSUB pushBack [(log -1), _i] };',
 }
 
 # operators that end the process, block on input or reach outside the sandbox by design
